@@ -294,6 +294,7 @@ func canonicalTarName(name string, isDir bool) string {
 
 // addTarFile adds to the tar archive a file from `path` as `name`
 func (ta *tarAppender) addTarFile(path, name string) error {
+	headerWritten := false
 	fi, err := os.Lstat(path)
 	if err != nil {
 		return err
@@ -331,6 +332,13 @@ func (ta *tarAppender) addTarFile(path, name string) error {
 			hdr.Size = 0 // This Must be here for the writer math to add up!
 		} else {
 			ta.SeenFiles[inode] = name
+			// Forget the name again if its entry does not make it into the
+			// archive: a later link would name a target that is not there.
+			defer func() {
+				if !headerWritten {
+					delete(ta.SeenFiles, inode)
+				}
+			}()
 		}
 	}
 
@@ -373,6 +381,7 @@ func (ta *tarAppender) addTarFile(path, name string) error {
 			if err := ta.TarWriter.WriteHeader(hdr); err != nil {
 				return err
 			}
+			headerWritten = true
 			if hdr.Typeflag == tar.TypeReg && hdr.Size > 0 {
 				return fmt.Errorf("tar: cannot use whiteout for non-empty file")
 			}
@@ -383,6 +392,7 @@ func (ta *tarAppender) addTarFile(path, name string) error {
 	if err := ta.TarWriter.WriteHeader(hdr); err != nil {
 		return err
 	}
+	headerWritten = true
 
 	if hdr.Typeflag == tar.TypeReg && hdr.Size > 0 {
 		// We use sequential file access to avoid depleting the standby list on
